@@ -94,7 +94,25 @@ theorem C20_annexed_range_covers_owned (L : Layout) (h : L.owned ≤ L.annexed) 
   simp at *
   omega
 
+/-- Every built-in of the table whose result is an integer-valued field has a right-hand side that stays
+inside the integers (no `/`, `**`, `MOD`; `INT(..)` of a real field is accepted) … -/
+theorem C20_integer_builtins_syntax :
+    ∀ b ∈ Gen.table, b.isIntArg b.doc.target = true →
+      intValued b.isIntArg b.code.body.rhs = true := by decide
+
+/-- … hence, whenever the integer-typed arguments hold integers, so does every element the generated loop
+writes: modelling integer fields inside the rationals loses nothing. -/
+theorem C20_integer_builtins_closed (b : Builtin) (hb : b ∈ Gen.table) (hint : b.isIntArg b.doc.target = true)
+    (env : Env) (df : Nat)
+    (hf : ∀ i, b.isIntArg i = true → IsInt (env.fld i df)) (hs : ∀ i, b.isIntArg i = true → IsInt (env.scal i)) :
+    IsInt (eval env df b.code.body.rhs) :=
+  eval_isInt b.isIntArg env df hf hs _ (C20_integer_builtins_syntax b hb hint)
+
 /-! ## Non-vacuity and sanity evaluations -/
+
+example : Gen.b_int_X_plus_Y ∈ Gen.table := by simp [Gen.table]
+example : Gen.b_int_X_plus_Y.isIntArg Gen.b_int_X_plus_Y.doc.target = true := by decide
+
 
 example : 0 < Gen.table.length := by decide
 
